@@ -719,6 +719,13 @@ def rule_greens_function(rep: Report, repo: Repo):
     if len(f) != 1:
         raise AnalysisError(R, "greens_function closure not found")
     f = f[0]
+    if any(isinstance(c, ast.Call) and isinstance(c.func, ast.Name) and c.func.id not in ("solve",) and
+           any(d.name == c.func.id for d in nested_defs(outer)) for c in ast.walk(f)):
+        # the closure calls a sibling helper (e.g. one that solves the two parts): look at it with such helpers seen through
+        outer_x = repo.find_expanded("linalg::direct_greens_function", R)
+        fx = [d for d in nested_defs(outer_x) if d.name == "greens_function"]
+        if len(fx) == 1:
+            f = fx[0]
     param = f.args.args[0].arg
     # The closure is evaluated symbolically in the four cases (right-hand side complex?, factorisation complex?); what it
     # returns is compared, as an expression tree, with  P @ solve(Z)  resp.  P @ (solve(Z.real) + 1j * solve(Z.imag)),
